@@ -6,8 +6,12 @@
        item: 1 sig tag  register           2 sig tag  register_sigaction
              3 sig id   unregister         4 sig      unregister_signal
              5 sig      deliver (raise)    6 sig      report the disposition of sig (probe only)
+             7 sig      signal_hook::low_level::emulate_default_handler(sig) for a signal whose default action is to be
+                        ignored or to stop the process (the probe's parent continues a stopped child): another part of
+                        the library at work; the registry and the dispositions are none of its business - no change here
     output, per item:
        1 id | 2 (Err) | 3 (panic) | 4 b | 5 n tag_1..tag_n | 9 (no result) |
+       7 1 |
        6 k f a   (k = 1 library handler / 0 otherwise; f = flags if k = 1, else 0 dfl / 1 ign / 2 user;
                   a = number of actions registered for sig)
     a malformed input gives [-99].
@@ -26,7 +30,7 @@ Definition linux_set_ok (s : Z) : bool := linux_query_ok s && negb (zmem s [9; 1
 
 Definition bz (b : bool) : Z := if b then 1 else 0.
 
-Inductive item := IOp (o : op) | IQuery (sig : Z).
+Inductive item := IOp (o : op) | IQuery (sig : Z) | IEmulate (sig : Z).
 
 Definition enc_out (o : out) : list Z :=
   match o with
@@ -74,6 +78,7 @@ Fixpoint parse_items (fuel : nat) (l : list Z) : option (list item) :=
       | 4 :: s :: r => option_map (cons (IOp (UnregisterSignal s))) (parse_items f r)
       | 5 :: s :: r => option_map (cons (IOp (Deliver s))) (parse_items f r)
       | 6 :: s :: r => option_map (cons (IQuery s)) (parse_items f r)
+      | 7 :: s :: r => option_map (cons (IEmulate s)) (parse_items f r)
       | _ => None
       end
   end.
@@ -83,6 +88,7 @@ Fixpoint run_items (c : cstate) (l : list item) : list Z :=
   | [] => []
   | IOp o :: r => let '(c1, x) := c_step linux_query_ok linux_set_ok c o in enc_out x ++ run_items c1 r
   | IQuery s :: r => enc_query c s ++ run_items c r
+  | IEmulate _ :: r => [7; 1] ++ run_items c r
   end.
 
 Definition run_c05 (inp : list Z) : list Z :=
